@@ -234,13 +234,13 @@ def _labels(case, v):
 
 
 LANES = [
-    Lane(name="revisit", run_case=run_case, enumerate=enum_revisit, budget={"quick": 1, "thorough": 1},
+    Lane(name="revisit", cpu_limit=30.0, run_case=run_case, enumerate=enum_revisit, budget={"quick": 1, "thorough": 1},
          shards={"quick": 8, "thorough": 8}, nontrivial=_nontrivial, labels=_labels, exhaustive=True,
          rule="chains revisiting a host whose certificate changes after its first k connections (enumerated family)"),
-    Lane(name="small-graphs", run_case=run_case, enumerate=enum_small, budget={"quick": 1, "thorough": 1},
+    Lane(name="small-graphs", cpu_limit=30.0, run_case=run_case, enumerate=enum_small, budget={"quick": 1, "thorough": 1},
          shards={"quick": 16, "thorough": 64}, nontrivial=_nontrivial, labels=_labels, exhaustive=True,
          rule="all graphs over N<=2 (quick) / N<=3 (thorough) nodes x max_redirects 0-3 x follow on/off x changed-pin host"),
-    Lane(name="random-graphs", run_case=run_case, strategy=case_st, budget={"quick": 2400, "thorough": 60000},
+    Lane(name="random-graphs", cpu_limit=30.0, run_case=run_case, strategy=case_st, budget={"quick": 2400, "thorough": 60000},
          shards={"quick": 16, "thorough": 64}, nontrivial=_nontrivial, labels=_labels,
          rule="random graphs over up to 8 nodes, max_redirects 0-6"),
 ]
